@@ -361,6 +361,10 @@ let eval (op : string) (a : string list) : string =
   (* wire-level family (real Transport on a wire-level fake): the journal holds only what the
      broker fully received, not what the client saw, so only the order / limits / log predicates *)
   | "wire", ws -> op_e2e ~wire:true ws
+  (* produce response cut at byte k (wire level): the broker knows for every request whether it
+     applied it and whether the complete answer was delivered, so the FULL set of history
+     predicates applies (a cut answer = a lost acknowledgement) *)
+  | "wcut", ws -> op_e2e ws
   | "pdl", [rt; wt] ->
     let o = { o_batchSize = Z0; o_batchBytes = Z0; o_maxAttempts = Z0; o_batchTimeoutMs = Z0;
               o_backoffMinMs = Z0; o_backoffMaxMs = Z0; o_readTimeoutMs = z_of_hex rt; o_writeTimeoutMs = z_of_hex wt } in
